@@ -235,6 +235,15 @@ func init() {
 					Queries: qs(tvInt("int", 7), tvStr("a"))}, JSON: true})
 				add(jsonCase{eCase: eCase{Kind: kind, Policy: "error", Configs: cfg, Docs: []eDoc{{ID: 1, Cons: []eConj{{{F: 0, Inc: true, V: tvSlice("[]int", tvInt("int", 7))}, {F: 1, Inc: false, V: TV{T: "[]string", Nil: true}}}}}},
 					Queries: qs(tvInt("int", 7), tvStr("a"))}, JSON: true})
+				// EMPTY lists as INCLUDE values: an include that lists nothing can never be satisfied, alone (the document
+				// matches nothing) or next to a satisfiable include, before and after the round trip
+				add(jsonCase{eCase: eCase{Kind: kind, Policy: "error", Configs: cfg, Docs: []eDoc{
+					{ID: 1, Cons: []eConj{{{F: 0, Inc: true, V: tvSlice("[]int")}}}},
+					{ID: 2, Cons: []eConj{{{F: 0, Inc: true, V: tvSlice("[]int")}, {F: 1, Inc: true, V: tvSlice("[]string", tvStr("a"))}}}},
+					{ID: 3, Cons: []eConj{{{F: 1, Inc: true, V: tvSlice("[]string")}, {F: 0, Inc: true, V: tvSlice("[]int", tvInt("int", 7))}}}},
+					{ID: 4, Cons: []eConj{{{F: 0, Inc: true, V: tvSlice("[]int", tvInt("int", 7))}}, {{F: 1, Inc: true, V: tvList()}}}},
+					{ID: 5, Cons: []eConj{{{F: 3, Inc: true, V: tvSlice("[]string")}, {F: 1, Inc: true, V: tvSlice("[]string", tvStr("a"))}}}}},
+					Queries: qs(tvInt("int", 7), tvStr("a"))}, JSON: true})
 			}
 		},
 		exec: func(raw json.RawMessage) (execResult, error) {
